@@ -55,7 +55,8 @@ RULE = (
     " combinations + swap (thorough: all pairs of the first 8 symbols x 9 + swap), other"
     " shapes = first pair (symbol inside a nested argument, neighbour) (thorough: first six x"
     " 3 + swap); shapes with a symbolic angular momentum: maps of that symbol only; each map"
-    " via subs and via xreplace; law 2: all pairs of instances of a class + twin objects +"
+    " via subs and via xreplace; merging maps symbol -> neighbouring symbol of the same"
+    " category; PoolSum: bound index -> 5 together with a free symbol -> fresh symbol; law 2: all pairs of instances of a class + twin objects +"
     " classes with the same field signature; non-trivial = the map changes the expression /"
     " the compared objects were built separately; distinct = (class, shape, map, method)"
 )
@@ -64,8 +65,9 @@ ASSUMPTIONS = [
     " 3 events for array classes; s-like symbols above threshold, masses small); structural"
     " equality needs no lattice",
     "symbols with assumptions are only replaced by expressions that satisfy the same"
-    " assumptions; bound variables (PoolSum indices, summation/integration variables) are"
-    " never replaced (C18 covers them)",
+    " assumptions; bound variables of sympy's own Integral/Sum are never replaced; a PoolSum"
+    " index is replaced only together with a free symbol (the index must stay, the free"
+    " symbol must go; C18 covers index-only maps)",
     "a symbolic angular momentum is combined with symbol / number / compound arguments only and"
     " only that symbol is substituted: the symbolic-L Blatt-Weisskopf form |h_L(1)|^2 /"
     " (z |h_L(sqrt z)|^2) equals the polynomial form used for integer L for z >= 0 only",
@@ -78,6 +80,10 @@ ASSUMPTIONS = [
     " that disappears on real-valued input or at a generic complex point off the real axis"
     " (signed zeros on a branch cut) is recorded as an outcome, not a violation",
     "points at which both sides are NaN are skipped and never counted as agreement",
+    "a class that brings its own pure-Python printer method (_pythoncode: ComplexSqrt today)"
+    " is additionally run through lambdify(..., 'math') with Python floats at the lattice"
+    " points and their negatives, embedded as 2*X + 1, and compared with the unfolded form"
+    " (exact evaluation when the class is its own unfolded form)",
     "a phsp_factor attribute of None is constructed, compared, rebuilt (laws 2, 3) but not"
     " unfolded (the attribute must be callable)",
 ]
@@ -198,9 +204,26 @@ def enumerate_maps(desc, tier: str, is_base: bool = False) -> list:
         for tk, t in tg[k].items():
             out.append((f"{leaf[1]}->{tk}", [[_leaf_desc(leaf), t]], leaf[3] > 0))
     n = len(lv)
+    # PoolSum: a map that names a bound index next to a free symbol replaces the free symbol
+    # only (sympy's own Integral/Sum do not define xreplace of a bound variable: not tried)
+    if desc[0] == "new" and desc[1].endswith(".PoolSum") and not symbolic_l:
+        bound = sorted({json.dumps(b) for b in R.bound_leaves(desc)})
+        for k, leaf in enumerate(lv[:2]):
+            for b in bound[:2]:
+                out.append((f"{json.loads(b)[1]}(bound)->5,{leaf[1]}->sym",
+                            [[json.loads(b), ["int", 5]], [_leaf_desc(leaf), tg[k]["sym"]]], leaf[3] > 0))
     if symbolic_l or n < 2:
         return out
     thorough = tier == "thorough"
+    # merging maps: a symbol is replaced by ANOTHER symbol of the expression (equal masses,
+    # coinciding pool values, ...)
+    merge_pairs = [(k, k + 1) for k in range(n - 1)] + [(k + 1, k) for k in range(n - 1)]
+    if not (is_base or thorough or desc[0] == "new"):
+        merge_pairs = merge_pairs[:1] + merge_pairs[n - 1:n]
+    for i, j in merge_pairs:
+        if _category(lv[i]) == _category(lv[j]) and lv[i][2] == lv[j][2]:
+            out.append((f"{lv[i][1]}->{lv[j][1]}(merge)", [[_leaf_desc(lv[i]), _leaf_desc(lv[j])]],
+                        lv[i][3] > 0 or lv[j][3] > 0))
     if is_base:
         pairs = list(itertools.combinations(range(min(n, 8)), 2)) if thorough else [(k, k + 1) for k in range(n - 1)]
         if not thorough and n > 2:
@@ -397,6 +420,57 @@ def check_compositional(rec: Recorder, e, info, desc, seed: int, known: bool, va
         rec.out(f"law4c:printing-commutes-with-abstraction-{verdict}")
 
 
+def check_python_backend(rec: Recorder, e, ed, desc, seed: int, known: bool) -> None:
+    """Law 4 for classes that bring their own pure-Python printer method (_pythoncode):
+    lambdify(..., "math") of the folded form against the unfolded form, called with Python
+    floats at the lattice points and at their negatives (both branches of a sign test)."""
+    import sympy as sp  # noqa: PLC0415
+
+    if not any("_pythoncode" in vars(c) for c in type(e).__mro__ if c.__module__.startswith("ampform")):
+        return
+    syms, arrs = R._symbols_of([e, ed])
+    if arrs:
+        return
+    try:
+        # embedded in a product and a sum, so that operator precedence of the generated
+        # code takes part: value = 2*e + 1
+        f_folded = sp.lambdify(syms, 2 * e + 1, "math")
+        f_unfolded = sp.lambdify(syms, 2 * ed + 1, "math")
+    except Exception as exc:  # noqa: BLE001
+        if type(exc).__name__ == "PrintMethodNotImplementedError" and any(
+                R.is_unevaluated_instance(n) for a in e.args for n in sp.preorder_traversal(a)):
+            rec.out("law4py:folded-form-needs-unfolding-of-an-argument")
+            return
+        rec.bad("4", f"lambdify(..., 'math') raised {type(exc).__name__}: {_short(exc)}", desc, known,
+                ["codegen-error", "python-backend"])
+        return
+    for j in range(2):
+        for sign in (1, -1):
+            pt = [sign * float(R.scalar_value(x, j, seed)) for x in syms]
+            rec.n_eval += 1
+            try:
+                if ed != e:
+                    want = complex(f_unfolded(*pt))
+                else:  # the class is its own unfolded form: exact evaluation on numbers
+                    want = 2 * complex(sp.N(e.xreplace({x: sp.Rational(v) for x, v in zip(syms, pt)}).doit(), 30)) + 1
+            except (ValueError, ZeroDivisionError, OverflowError, TypeError):
+                rec.out("law4py:unfolded-form-not-evaluable-with-math")
+                continue
+            try:
+                got = complex(f_folded(*pt))
+            except Exception as exc:  # noqa: BLE001
+                rec.bad("4", f"code of the folded form for the 'math' backend raised {type(exc).__name__}:"
+                             f" {_short(exc)} at {pt} where the unfolded form gives {want}", desc, known,
+                        ["codegen-one-sided", "python-backend"])
+                continue
+            if abs(got - want) <= 1e-9 * max(1.0, abs(want)):
+                rec.out("law4py:folded=unfolded(math backend)")
+                rec.nontrivial.append([type(e).__name__, _shape_id(desc), "math-backend", f"{j},{sign}"])
+            else:
+                rec.bad("4", f"'math' backend: code of the folded form gives {got} but the unfolded form {want}"
+                             f" at {dict(zip(map(str, syms), pt))}", desc, known, ["values", "python-backend"])
+
+
 def check_law4(rec: Recorder, e, ed, info, desc, seed: int, known: bool) -> None:
     import numpy as np  # noqa: PLC0415
 
@@ -571,6 +645,7 @@ def check_shape(rec: Recorder, desc, tier: str, seed: int, is_base: bool = False
 
     # ---- law 4: generated code
     check_law4(rec, e, ed, info, desc, seed, known)
+    check_python_backend(rec, e, ed, desc, seed, known)
 
     # ---- law 1: substitution commutes with unfolding
     maps = enumerate_maps(desc, tier, is_base)
